@@ -1460,7 +1460,7 @@ class Memoer(Tymee):
                     vid = self.vids.get(mid.decode()) # if not then get from .vids
                     vid = vid.encode() if vid is not None else b""
             elif code in AckDex:
-                pass
+                gc = None  # acks carry no gram count
             else:
                 raise hioing.MemoerError(f"Invalid {code=}")
 
@@ -1498,7 +1498,7 @@ class Memoer(Tymee):
                     vid = self.vids.get(mid.decode()) # if not then get from .vids
                     vid = vid.encode() if vid is not None else b""
             elif code in AckDex:
-                pass
+                gc = None  # acks carry no gram count
             else:
                 raise hioing.MemoerError(f"Invalid {code=}")
 
@@ -1592,7 +1592,8 @@ class Memoer(Tymee):
 
         try:
             mid, vid, gn, gc = self.pick(gram)  # parse and strip off head leaving body
-        except hioing.MemoerError as ex: # invalid gram so drop
+        except (hioing.MemoerError, ValueError, LookupError) as ex: # invalid gram so drop
+            # untrusted bytes: bad code, base64, utf-8, size or signature all mean invalid gram
             # may be bad signature when signed or unrecognized header format
             logger.error("Invalid Memoer gram from %s.\n %s.", src, ex)
             return True  # did receive data so can try again now
@@ -1665,9 +1666,14 @@ class Memoer(Tymee):
 
         memo = bytearray()
         for i in range(cnt):  # iterate in numeric order, items are insertion ordered
+            if i not in grams:  # gram numbers beyond count are not parts of memo
+                return None  # still missing gram i
             memo.extend(grams[i])  # extend memo with gram body part at gram i
 
-        return memo.decode()  # convert bytearray to str
+        try:
+            return memo.decode()  # convert bytearray to str
+        except UnicodeDecodeError as ex:
+            raise hioing.MemoerError("Invalid memo encoding") from ex
 
 
 
@@ -1682,7 +1688,15 @@ class Memoer(Tymee):
             # if mid then grams dict at mid must not be empty
             if not mid in self.counts:  # missing first gram so skip
                 continue
-            memo = self.fuse(self.rxgs[mid], self.counts[mid])
+            try:
+                memo = self.fuse(self.rxgs[mid], self.counts[mid])
+            except hioing.MemoerError as ex:  # invalid memo so drop all its grams
+                logger.error("Invalid Memoer memo from %s.\n %s.", self.sources[mid], ex)
+                del self.rxgs[mid]
+                del self.counts[mid]
+                del self.sources[mid]
+                del self.vids[mid]
+                continue
             if memo is not None:  # allows for empty "" memo for some src
                 self.rxms.append((memo, self.sources[mid], self.vids[mid]))
                 del self.rxgs[mid]
